@@ -40,6 +40,8 @@ pub struct FarmSim {
     /// configured range of unlocking durations for NEW positions (existing ones keep theirs)
     pub min_dur: u64,
     pub max_dur: u64,
+    /// receiver passed along with the next locked deposit through the pool manager
+    pub pm_receiver: Option<String>,
     pub steps: usize,
     pub labels: BTreeMap<String, String>,
     /// (amount, duration, weight) of freshly added weight, for the pairwise monotonicity check
@@ -94,6 +96,7 @@ impl FarmSim {
             max_farms: cfg.max_farms.clamp(1, 3) as u32,
             min_dur: DAY,
             max_dur: YEAR,
+            pm_receiver: None,
             w,
             l: Ledger::default(),
             cfg: cfg.clone(),
